@@ -21,7 +21,7 @@ PROPS = {
         "rule": "GET with a Range header on objects of size 0..6 (quick) / 0..24 (thorough), 100 and 4097, on all six backend "
                 "instances; headers: all first/last/suffix in -1..n+2 in the three forms, int64/uint32 boundary values in every "
                 "position, whitespace/sign/unit/multi-range variants, seeded token soup. distinct_nontrivial = distinct "
-                "(backend, header, size) whose header reaches the arithmetic (parses as a single range).",
+                "(backend, header, size) whose header reaches the arithmetic (parses as a single range). Malformed headers whose junk after 'bytes=' consists of the unit's own letters or '=' (bytes==1-2, bytes=bytes=1-2, bytes=e1-2 ...).",
         "explanation": "Theorems: for every header string and every object below 2^63 bytes the modelled handler answers exactly "
                        "what the wrap-free spec says and never slices out of bounds. Tie: every run the Go handlers built from "
                        "/repo and the extracted model are evaluated on the same (header, object) cases and status, S3 code, "
@@ -37,7 +37,7 @@ PROPS = {
                 "lengths 1..70 of valid characters, IPv4/IPv6-looking names and seeded random strings; PUT /<name> through the "
                 "HTTP API on memory, bolt and multi-bucket fs (MemMapFs and real directory) for all strings up to length 4/3/3/2 "
                 "(quick) plus the special and random names and duplicates, with ListBuckets compared to the set of accepted names "
-                "every 500 requests. distinct_nontrivial = distinct accepted names (direct) + distinct (backend, name) created.",
+                "every 500 requests. distinct_nontrivial = distinct accepted names (direct) + distinct (backend, name) created. The same corpus is sent (GET /<name>, and reads, sub-resources and uploads under invalid names) to servers with the auto-bucket option on memory, bolt and fs: a bucket comes to exist on first use exactly when its name is valid, and the bucket list is compared.",
         "explanation": "Theorem: the modelled validator equals the documented rule on every byte string of any length (no bound); "
                        "create succeeds iff valid and absent, a refusal creates nothing. Tie: the real ValidateBucketName and the "
                        "real create-bucket handlers are run on the same names as the extracted validator/spec and compared "
@@ -52,7 +52,7 @@ PROPS = {
                 "get, head, delete, multi-delete, copy incl. self-copy and cross-bucket copy, head bucket) on the memory backend with and "
                 "without auto-bucket, each followed by a probe (list buckets, list objects, get every key); plus seeded random sequences "
                 "of 40 (quick) / 60 (thorough) operations over 2 buckets x 4 keys x 3 bodies on all six backend instances with and "
-                "without auto-bucket. distinct_nontrivial = distinct sequences executed.",
+                "without auto-bucket. distinct_nontrivial = distinct sequences executed. The two buckets are named bkt and bkt2 (one name begins with the other); on the fs backends keys below an object and keys that are directories of other keys are read, deleted and copied from (never written: NoSuchKey everywhere); every fourth memory history runs the backend with versioning support switched off.",
         "explanation": "Theorems: the modelled handlers satisfy the S3 laws for every reachable state and every operation sequence "
                        "(read-your-writes, frame, idempotent delete, bucket lifecycle, copy). Tie: every response of every sequence "
                        "(status, S3 code, body, ETag, bucket list, key list) produced by the Go handlers built from /repo is compared "
@@ -103,7 +103,7 @@ PROPS = {
                 "full walks following the server's continuation (V1 NextMarker or last key, V2 continuation token) checked by the "
                 "walk oracle (page bound, strictly ascending, each common prefix once, concatenation = unpaginated, last page not "
                 "truncated, termination) and page-by-page against the model; single pages from arbitrary markers incl. start-after; "
-                "bolt/fs: fallback with WithUnimplementedPageError on/off. distinct_nontrivial = distinct walks.",
+                "bolt/fs: fallback with WithUnimplementedPageError on/off. distinct_nontrivial = distinct walks. Key sets in which a key ends with the delimiter (next to keys below it) are walked too; keys beginning with the delimiter are the known finding D32.",
         "explanation": "Theorems about the paging loop of the model (bound, progress, completeness of the walk by induction on the sorted "
                        "key list). Tie: every page of every walk from the Go handlers vs the extracted model, plus a model-independent "
                        "walk oracle evaluated on the implementation's pages.",
@@ -136,7 +136,7 @@ PROPS = {
                 "following NextPartNumberMarker and single pages from markers {0,1,2,4,13,14,41,42,10^6}; ListMultipartUploads walks "
                 "for every max-uploads 1..n+1 over six prefix/delimiter combinations following (NextKeyMarker, NextUploadIdMarker); "
                 "each walk is checked by a model-independent oracle (bound, every entry once, concatenation = unpaginated, each common "
-                "prefix once) and page by page against the model. distinct_nontrivial = distinct walks.",
+                "prefix once) and page by page against the model. distinct_nontrivial = distinct walks. A fixed history lists uploads whose groups are not neighbours in key order (/a/x, /b/x, a/y) unpaginated against the model.",
         "explanation": "Theorems over the uploader model's listings (exactness w.r.t. the pending uploads / held parts, paging). Tie: "
                        "every page from the Go handlers vs the extracted model plus the walk oracle on the implementation's pages.",
         "assumptions": [],
@@ -152,7 +152,7 @@ PROPS = {
                 "ReadAll(exact / short / long declared size) and copy loops with buffers 1,2,7,512,32768; truncated and malformed "
                 "framings; then PUT with the streaming framing on all six backends with the same fragmentations, GET after each, "
                 "declared decoded length off by one and negative. distinct_nontrivial = distinct (payload length, chunking, schedule, "
-                "consumer) with a non-empty payload.",
+                "consumer) with a non-empty payload. aws-chunked part uploads and whole-object uploads are also sent with a Content-MD5: of their payload (accepted) and of other bytes (refused).",
         "explanation": "Theorem: for every payload, every chunking, every transport fragmentation and every consumer buffer schedule the "
                        "modelled decoder returns exactly the payload. Tie: the real chunkedReader (driven directly and through PUT) vs "
                        "the extracted state machine on the same streams and schedules; spec oracle: decoded bytes = payload, wrong "
@@ -206,7 +206,7 @@ PROPS = {
                 "same digest x length matrix, bad part numbers and failing readers for upload-part; after each request a snapshot "
                 "(GET+HEAD of the previous object incl. metadata, GET of the absent key, bucket listing, ListParts of the pending "
                 "upload) is compared with the model, whose state is unchanged by a rejected request. distinct_nontrivial = distinct "
-                "(backend, integrity, target, digest kind, length delta / failure point).",
+                "(backend, integrity, target, digest kind, length delta / failure point). Uploads the backend itself refuses (a path segment longer than a file name on real directories) are rejected uploads too: listings with and without delimiter and the other object are compared before and after, and the refused key must afterwards read as NoSuchKey and delete quietly.",
         "explanation": "Theorems: the modelled upload path accepts iff the digest (when checked) matches the bytes received and the "
                        "declared length equals the body length; every rejection — for every reader failure point k — returns the state "
                        "unchanged. Tie: responses and before/after snapshots of the Go handlers on all six backends vs the extracted "
@@ -226,7 +226,7 @@ PROPS = {
                 "backends, every file on disk classified by bucket root) is compared with the snapshot before by the frame oracle: "
                 "only entries of the addressed (bucket, key) may change, a refused operation may change nothing, no file may appear "
                 "outside the addressed bucket's roots. Memory and bolt are additionally stepped against the model. "
-                "distinct_nontrivial = distinct (backend, bucket, key, status).",
+                "distinct_nontrivial = distinct (backend, bucket, key, status). Buckets bkc2 and bkc.x (names beginning with the name of bucket bkc) hold objects while the empty bucket bkc is created and deleted; the snapshot also records the common prefixes of a delimiter listing and, on real directories, the directories on disk; copies are also attempted from source buckets . .. buckets metadata _meta ./<bucket> spelling the path to a stored object (must be refused); every history ends with a force-delete (x-minio-force-delete) of a bucket that holds keys named like other buckets, under the frame oracle only.",
         "explanation": "Theorems: frame laws of the model (an operation addressed to (bucket, key) changes no other (bucket, key); keys "
                        "that differ as byte strings are different objects; an unknown bucket name is never served). Tie: model "
                        "comparison on the opaque-key backends; the model-free frame oracle (extracted from Coq) on the observations "
@@ -250,7 +250,7 @@ PROPS = {
                 "/ copy over existing, to a new key / multi-delete / create-bucket, a wrapping file system kills the request immediately "
                 "before each state-changing call and half way through each file write; the calls logged must equal the model's sequence "
                 "and a new backend on what is left must answer exactly as the Coq crash model predicts for that call index. "
-                "distinct_nontrivial = distinct (backend, history, restart) + distinct crash points.",
+                "distinct_nontrivial = distinct (backend, history, restart) + distinct crash points. After every crash point the delimiter listing of the next process is compared with its plain listing: a common prefix without a key is a violation (known finding D34 where it is the directory of the killed upload).",
         "explanation": "Theorems: every observable of the object API is a function of the persistent state alone (clean restart); for the fs "
                        "backends' call sequences: an uninterrupted PutObject is the abstract put, at EVERY crash point every other key answers "
                        "as before, DeleteObject is crash-atomic, every crash state of PutObject is one of a listed set, the invariant is kept "
@@ -272,7 +272,7 @@ PROPS = {
                 "metadata sets (none; Content-Type + x-amz-meta; Content-Type + Content-Encoding + Content-Disposition + a 900-byte "
                 "value), uploaded by PUT (with and without Content-MD5), browser-form POST, copy, and Backend.PutObject; each followed "
                 "by GET and HEAD over HTTP (and through the Backend API) and a listing of the key; later operations on other keys, "
-                "then the same reads again. distinct_nontrivial = distinct (backend, integrity, upload path, size, key).",
+                "then the same reads again. distinct_nontrivial = distinct (backend, integrity, upload path, size, key). Copies are made inside the bucket and, every third one, from a second bucket that holds an object of the destination's name (which must stay what it is).",
         "explanation": "Theorems: read-your-writes with the exact body and the metadata sent (C01_roundtrip), HEAD/GET agreement, "
                        "stability under operations on other keys (frame), listing entry = current version. Tie: the responses of the Go "
                        "handlers and of the Go Backend API vs the extracted model, with length and MD5 recomputed by the checker.",
@@ -291,7 +291,7 @@ PROPS = {
                 "missing or duplicate parts; aws-chunked incl. truncated with hostile decoded lengths) x hostile headers (Range, "
                 "Content-MD5, X-Amz-Copy-Source, Content-Length, conditionals, force-delete, oversized metadata). Every request runs "
                 "under recover() and a 5 s deadline; every 25 requests a canary sequence on a fresh bucket and on the fuzzed bucket is "
-                "compared with the model. distinct_nontrivial = distinct (backend, config, status, code, method, header count).",
+                "compared with the model. distinct_nontrivial = distinct (backend, config, status, code, method, header count). The corpus and the fuzz pool hold keys of 200-210 bytes in 2-, 3- and 4-byte characters (written, read, listed, deleted).",
         "explanation": "Theorems: no reachable state makes a modelled handler panic (object API, range, uploader complete/list with any "
                        "part number or marker, version listing), an error leaves the state unchanged, and the status of an error equals "
                        "the table entry of its code. Tie: model-free response oracle (extracted from Coq) on every response of the Go "
@@ -315,7 +315,7 @@ PROPS = {
                 "order of its requests reproduces every observed response on the model; sequential probes between rounds; (c) 16 clients x "
                 "40 simultaneous versioned PUTs: ids pairwise distinct, each id serves exactly its upload; (d) the workload (reduced) in a "
                 "binary built with -race: a report with a conflicting access in /repo code is a violation. Watchdogs report hangs. "
-                "distinct_nontrivial = distinct (backend, versioned, round).",
+                "distinct_nontrivial = distinct (backend, versioned, round). c07CopyStorm (every backend, also under the race detector): 8 clients copy one object carrying an ACL, user metadata and a content type to keys of their own while others GET / HEAD it; the source must read exactly as uploaded throughout and every copy is the source without its ACL.",
         "explanation": "Theorems: for every number of clients, every program and EVERY schedule of the section model, the shared state and "
                        "each client's responses equal those of the sequential execution of the operations in Commit order, which respects "
                        "program order; Post delivers exactly what Commit captured (no torn reads). Tie: forced interleavings and "
